@@ -65,6 +65,7 @@ macro_rules! qwt_rank_law {
     ($name:ident, $t:ty, $n:expr, $pin:expr, $pfs:expr, $unw:expr) => {
         #[kani::proof]
         #[kani::unwind($unw)]
+        #[kani::stub(crate::utils::prefetch_read_NTA, noop_prefetch)]
         #[kani::stub(crate::utils::stable_partition_of_4, part4_stub)]
         #[kani::stub(PrefetchSupport::new, pfs_new_stub)]
         #[kani::stub(PrefetchSupport::approx_rank_unchecked, pfs_approx_stub)]
@@ -126,50 +127,50 @@ macro_rules! qwt_select_law {
 
 // ---- u8: 4 levels
 // @h props=C01,C04,C10,C12:t,C19:t tier=quick family=M prof=AB mem=5 timeout=1800 stubs=ModelRS,utils::stable_partition_of_4->fixed_array_reference(c17) role=qwt.get.u8
-// @bound QWaveletTree<u8, ModelRS>: length 3, contents symbolic with s[2] = 255 (4 levels); get for every index of the machine range; len, sigma, n_levels
+// @bound QWaveletTree<u8, ModelRS>: length 3, contents symbolic with s[last] = 255 (4 levels); get for every index of the machine range; len, sigma, n_levels
 // @funcs QWaveletTree::new, QWaveletTree::get, QWaveletTree::get_unchecked, QWaveletTree::len, QWaveletTree::sigma, QWaveletTree::n_levels, utils::stable_partition_of_4, utils::msb, QVectorBuilder::push
 qwt_get_law!(c01_get_u8_n3, u8, 3, 2, 4, false, 8);
 // @h props=C01:t,C04:t,C10:t,C12:t,C19:t tier=thorough family=M mem=5 timeout=1800 stubs=ModelRS,utils::stable_partition_of_4->fixed_array_reference(c17) role=qwt.get.u8
-// @bound QWaveletTree<u8, ModelRS>: length 4, contents symbolic with s[3] = 255 (4 levels); get for every index of the machine range; len, sigma, n_levels
+// @bound QWaveletTree<u8, ModelRS>: length 4, contents symbolic with s[last] = 255 (4 levels); get for every index of the machine range; len, sigma, n_levels
 // @funcs QWaveletTree::new, QWaveletTree::get, QWaveletTree::get_unchecked, QWaveletTree::len, QWaveletTree::sigma, QWaveletTree::n_levels, utils::stable_partition_of_4, utils::msb, QVectorBuilder::push
 qwt_get_law!(c01_get_u8_n4, u8, 4, 3, 4, false, 8);
-// @h props=C01,C04,C09,C10 tier=quick family=M prof=AB mem=5 timeout=2400 stubs=ModelRS,utils::stable_partition_of_4->fixed_array_reference(c17) role=qwt.rank.u8
-// @bound QWaveletTree<u8, ModelRS>: length 3 (s[2] = 255); rank and rank_prefetch for every symbol and every position of the machine range, checked and unchecked; block estimates of the model arbitrary (<= true rank)
+// @h props=C01,C04,C09,C10 tier=quick family=M prof=ABP mem=5 timeout=2400 stubs=ModelRS,utils::prefetch_read_NTA->empty(feature_on_only),utils::stable_partition_of_4->fixed_array_reference(c17) role=qwt.rank.u8
+// @bound QWaveletTree<u8, ModelRS>: length 3 (s[last] = 255); rank and rank_prefetch for every symbol and every position of the machine range, checked and unchecked; block estimates of the model arbitrary (<= true rank)
 // @funcs QWaveletTree::new, QWaveletTree::rank, QWaveletTree::rank_unchecked, QWaveletTree::rank_prefetch, QWaveletTree::rank_prefetch_unchecked
 qwt_rank_law!(c01_rank_u8_n3, u8, 3, 2, false, 8);
 // @h props=C01:t,C04:t,C09:t,C10:t tier=thorough family=M mem=5 timeout=2400 stubs=ModelRS,utils::stable_partition_of_4->fixed_array_reference(c17) role=qwt.rank.u8
-// @bound QWaveletTree<u8, ModelRS>: length 4 (s[3] = 255); rank and rank_prefetch for every symbol and every position of the machine range, checked and unchecked; block estimates of the model arbitrary (<= true rank)
+// @bound QWaveletTree<u8, ModelRS>: length 4 (s[last] = 255); rank and rank_prefetch for every symbol and every position of the machine range, checked and unchecked; block estimates of the model arbitrary (<= true rank)
 // @funcs QWaveletTree::new, QWaveletTree::rank, QWaveletTree::rank_unchecked, QWaveletTree::rank_prefetch, QWaveletTree::rank_prefetch_unchecked
 qwt_rank_law!(c01_rank_u8_n4, u8, 4, 3, false, 8);
 // @h props=C01,C04,C10 tier=quick family=M mem=5 timeout=2400 stubs=ModelRS,utils::stable_partition_of_4->fixed_array_reference(c17) role=qwt.select.u8
-// @bound QWaveletTree<u8, ModelRS>: length 3 (s[2] = 255); select for every symbol and every k of the machine range, checked and unchecked
+// @bound QWaveletTree<u8, ModelRS>: length 3 (s[last] = 255); select for every symbol and every k of the machine range, checked and unchecked
 // @funcs QWaveletTree::new, QWaveletTree::select, QWaveletTree::select_unchecked
 qwt_select_law!(c01_select_u8_n3, u8, 3, 2, false, 8);
 // @h props=C01:t,C04:t,C10:t tier=thorough family=M mem=5 timeout=2400 stubs=ModelRS,utils::stable_partition_of_4->fixed_array_reference(c17) role=qwt.select.u8
-// @bound QWaveletTree<u8, ModelRS>: length 4 (s[3] = 255); select for every symbol and every k of the machine range, checked and unchecked
+// @bound QWaveletTree<u8, ModelRS>: length 4 (s[last] = 255); select for every symbol and every k of the machine range, checked and unchecked
 // @funcs QWaveletTree::new, QWaveletTree::select, QWaveletTree::select_unchecked
 qwt_select_law!(c01_select_u8_n4, u8, 4, 3, false, 8);
-// @h props=C01,C09 tier=quick family=M mem=24 timeout=2400 stubs=ModelRS,PrefetchSupport::new->default,PrefetchSupport::approx_rank_unchecked->monotone_multiple_of_2048,utils::stable_partition_of_4->fixed_array_reference(c17) role=qwt.rank.u8.pfs
-// @bound QWaveletTree<u8, ModelRS, true> (prefetch support on; PrefetchSupport replaced by its contract stub): length 3 (s[0] = 255); rank == rank_prefetch for all arguments
+// @h props=C01:t,C09:t tier=thorough family=M optional=yes mem=45 timeout=3600 stubs=ModelRS,PrefetchSupport::new->default,PrefetchSupport::approx_rank_unchecked->monotone_multiple_of_2048,utils::stable_partition_of_4->fixed_array_reference(c17) role=qwt.rank.u8.pfs
+// @bound QWaveletTree<u8, ModelRS, true> (prefetch support on; PrefetchSupport replaced by its contract stub): length 3 (s[last] = 255); rank == rank_prefetch for all arguments
 // @funcs QWaveletTree::new, QWaveletTree::rank, QWaveletTree::rank_prefetch, QWaveletTree::rank_prefetch_unchecked, QWaveletTree::rank_prefetch_superblocks_unchecked
-qwt_rank_law!(c01_rank_u8_n3_pfs, u8, 3, 0, true, 8);
-// @h props=C01 tier=quick family=M mem=24 timeout=2400 stubs=ModelRS,PrefetchSupport::new->default,utils::stable_partition_of_4->fixed_array_reference(c17) role=qwt.get.u8.pfs
-// @bound QWaveletTree<u8, ModelRS, true>: length 3 (s[1] = 255): get
+qwt_rank_law!(c01_rank_u8_n3_pfs, u8, 3, 2, true, 8);
+// @h props=C01:t tier=thorough family=M optional=yes mem=45 timeout=3600 stubs=ModelRS,PrefetchSupport::new->default,utils::stable_partition_of_4->fixed_array_reference(c17) role=qwt.get.u8.pfs
+// @bound QWaveletTree<u8, ModelRS, true>: length 3 (s[last] = 255): get
 // @funcs QWaveletTree::new, QWaveletTree::get
-qwt_get_law!(c01_get_u8_n3_pfs, u8, 3, 1, 4, true, 8);
+qwt_get_law!(c01_get_u8_n3_pfs, u8, 3, 2, 4, true, 8);
 // ---- u16: 8 levels
 // @h props=C01,C19:t tier=thorough family=M mem=5 timeout=2400 stubs=ModelRS,utils::stable_partition_of_4->fixed_array_reference(c17) role=qwt.get.u16
-// @bound QWaveletTree<u16, ModelRS>: length 3 (s[0] = 65535, 8 levels): get
+// @bound QWaveletTree<u16, ModelRS>: length 3 (s[last] = 65535, 8 levels): get
 // @funcs QWaveletTree::new, QWaveletTree::get
-qwt_get_law!(c01_get_u16_n3, u16, 3, 0, 8, false, 10);
+qwt_get_law!(c01_get_u16_n3, u16, 3, 2, 8, false, 10);
 // @h props=C01 tier=thorough family=M mem=5 timeout=2400 stubs=ModelRS,utils::stable_partition_of_4->fixed_array_reference(c17) role=qwt.rank.u16
 // @bound QWaveletTree<u16, ModelRS>: length 3: rank / rank_prefetch
 // @funcs QWaveletTree::new, QWaveletTree::rank, QWaveletTree::rank_prefetch
-qwt_rank_law!(c01_rank_u16_n3, u16, 3, 0, false, 10);
+qwt_rank_law!(c01_rank_u16_n3, u16, 3, 2, false, 10);
 // @h props=C01 tier=thorough family=M mem=5 timeout=2400 stubs=ModelRS,utils::stable_partition_of_4->fixed_array_reference(c17) role=qwt.select.u16
 // @bound QWaveletTree<u16, ModelRS>: length 3: select
 // @funcs QWaveletTree::new, QWaveletTree::select
-qwt_select_law!(c01_select_u16_n3, u16, 3, 0, false, 10);
+qwt_select_law!(c01_select_u16_n3, u16, 3, 2, false, 10);
 // ---- u32: 16 levels
 // @h props=C01 tier=thorough family=M mem=5 timeout=3000 stubs=ModelRS,utils::stable_partition_of_4->fixed_array_reference(c17) role=qwt.get.u32
 // @bound QWaveletTree<u32, ModelRS>: length 3 (16 levels): get
@@ -183,24 +184,24 @@ qwt_rank_law!(c01_rank_u32_n2, u32, 2, 1, false, 18);
 // @h props=C01,C19:t tier=thorough family=M mem=5 timeout=3600 stubs=ModelRS,utils::stable_partition_of_4->fixed_array_reference(c17) role=qwt.get.u64
 // @bound QWaveletTree<u64, ModelRS>: length 2 (32 levels): get
 // @funcs QWaveletTree::new, QWaveletTree::get
-qwt_get_law!(c01_get_u64_n2, u64, 2, 0, 32, false, 34);
+qwt_get_law!(c01_get_u64_n2, u64, 2, 1, 32, false, 34);
 // @h props=C01 tier=thorough family=M mem=5 timeout=3600 stubs=ModelRS,utils::stable_partition_of_4->fixed_array_reference(c17) role=qwt.get.usize
 // @bound QWaveletTree<usize, ModelRS>: length 2 (32 levels): get
 // @funcs QWaveletTree::new, QWaveletTree::get
 qwt_get_law!(c01_get_usize_n2, usize, 2, 1, 32, false, 34);
 // ---- u128: 64 levels (shifts >= 64)
 // @h props=C01,C19:t tier=thorough family=M mem=5 timeout=3600 stubs=ModelRS,utils::stable_partition_of_4->fixed_array_reference(c17) role=qwt.get.u128
-// @bound QWaveletTree<u128, ModelRS>: length 2 (s[1] = u128::MAX, 64 levels): get - values above 2^64
+// @bound QWaveletTree<u128, ModelRS>: length 2 (s[last] = u128::MAX, 64 levels): get - values above 2^64
 // @funcs QWaveletTree::new, QWaveletTree::get, utils::stable_partition_of_4
 qwt_get_law!(c01_get_u128_n2, u128, 2, 1, 64, false, 66);
 // @h props=C01 tier=thorough family=M mem=5 timeout=3600 stubs=ModelRS,utils::stable_partition_of_4->fixed_array_reference(c17) role=qwt.rank.u128
 // @bound QWaveletTree<u128, ModelRS>: length 2: rank
 // @funcs QWaveletTree::new, QWaveletTree::rank
-qwt_rank_law!(c01_rank_u128_n2, u128, 2, 0, false, 66);
+qwt_rank_law!(c01_rank_u128_n2, u128, 2, 1, false, 66);
 // @h props=C01 tier=thorough family=M mem=5 timeout=3600 stubs=ModelRS,utils::stable_partition_of_4->fixed_array_reference(c17) role=qwt.select.u128
 // @bound QWaveletTree<u128, ModelRS>: length 2: select
 // @funcs QWaveletTree::new, QWaveletTree::select
-qwt_select_law!(c01_select_u128_n2, u128, 2, 0, false, 66);
+qwt_select_law!(c01_select_u128_n2, u128, 2, 1, false, 66);
 
 /// Concrete contents (the level count folds by itself), symbolic queries: alphabets that do not fill the type.
 macro_rules! qwt_concrete {
@@ -271,11 +272,12 @@ qwt_concrete!(c01_concrete_sigma3, u64, [3, 3, 1, 0], 4, 1, 10);
 // @funcs QWaveletTree::new, QWaveletTree::get, QWaveletTree::rank, QWaveletTree::select
 qwt_concrete!(c01_concrete_sigma4, u8, [4, 1, 4], 3, 2, 10);
 
-// @h props=C01,C04,C09 tier=quick family=E mem=5 timeout=1200 stubs=ModelRS role=qwt.empty
+// @h props=C01,C04,C09 tier=quick family=E prof=AP mem=5 timeout=1200 stubs=ModelRS,utils::prefetch_read_NTA->empty(feature_on_only) role=qwt.empty
 // @bound empty tree (new on an empty slice) and Default tree over the model, with and without prefetch support: every query, all arguments of the machine range: no position, no non-zero count, no panic
 // @funcs QWaveletTree::new, QWaveletTree::default, QWaveletTree::get, QWaveletTree::rank, QWaveletTree::rank_prefetch, QWaveletTree::select, QWaveletTree::sigma, QWaveletTree::len
 #[kani::proof]
 #[kani::unwind(8)]
+#[kani::stub(crate::utils::prefetch_read_NTA, noop_prefetch)]
 fn c01_empty_model() {
     let c: u8 = kani::any();
     let i: usize = kani::any();
@@ -321,7 +323,7 @@ fn c01_false_twin() {
 // ------------------------------------------------------------------------------------------ C19
 
 // @h props=C19,C01:t tier=quick family=M mem=18 timeout=2400 stubs=ModelRS,utils::stable_partition_of_4->fixed_array_reference(c17) role=qwt.paths.u8
-// @bound QWaveletTree<u8, ModelRS>: length 3 (s[2] = 255): new / From<Vec> / collect give equal values, Clone is equal, a sequence differing in one symbolic position gives an unequal value
+// @bound QWaveletTree<u8, ModelRS>: length 3 (s[last] = 255): new / From<Vec> / collect give equal values, Clone is equal, a sequence differing in one symbolic position gives an unequal value
 // @funcs QWaveletTree::new, QWaveletTree::from<Vec>, QWaveletTree::from_iter, QWaveletTree::clone, QWaveletTree::eq
 #[kani::proof]
 #[kani::unwind(10)]
@@ -376,6 +378,18 @@ fn c19_qwt_widths() {
     assert!(tb.rank(sym as u32, i) == tc.rank(sym as u128, i));
     assert!(ta.select(sym, i) == tb.select(sym as u32, i));
     assert!(tb.select(sym as u32, i) == tc.select(sym as u128, i));
+    // different sequences never compare equal - also when one tree is a "prefix" of the other (fewer levels)
+    let mut d1: [u8; 3] = [1, 2, 3];
+    let mut d2: [u8; 3] = [4, 8, 12];
+    let mut d3: [u8; 3] = [1, 2, 3];
+    let td1 = Tree::<u8, false>::new(&mut d1[..]);
+    let td2 = Tree::<u8, false>::new(&mut d2[..]);
+    let td3 = Tree::<u8, false>::new(&mut d3[..]);
+    assert!(td1 != td2);
+    assert!(td1 == td3);
+    core::mem::forget(td1);
+    core::mem::forget(td2);
+    core::mem::forget(td3);
     kani::cover!(ta.rank(sym, i) == Some(1), "a count of one");
     kani::cover!(ta.select(sym, i).is_some(), "an existing occurrence");
     core::mem::forget(ta);
@@ -386,25 +400,26 @@ fn c19_qwt_widths() {
 // ------------------------------------------------------------------------------------------ C18
 
 // @h props=C18 tier=quick family=M mem=18 timeout=2400 stubs=ModelRS,utils::stable_partition_of_4->fixed_array_reference(c17) role=purity.qwt
-// @bound QWaveletTree<u8, ModelRS>: length 3: a batch of queries with symbolic arguments leaves the tree equal to its snapshot; repeating each query gives the same answer
+// @bound QWaveletTree<u8, ModelRS>: length 3: a batch of queries with symbolic arguments, repeated in another order, gives the same answers and leaves every element and the summary fields unchanged
 // @funcs QWaveletTree::get, QWaveletTree::rank, QWaveletTree::rank_prefetch, QWaveletTree::select, QWaveletTree::eq
 #[kani::proof]
 #[kani::unwind(10)]
 #[kani::stub(crate::utils::stable_partition_of_4, part4_stub)]
 fn c18_purity_qwt() {
-    let s = any_seq!(u8, 3, 1);
+    let s = any_seq!(u8, 3, 2);
     let mut w = s;
     let t = Tree::<u8, false>::new(&mut w[..]);
-    let snap = t.clone();
     let c: u8 = kani::any();
     let i: usize = kani::any();
+    let j: usize = kani::any();
+    kani::assume(j < 3);
     let a1 = t.get(i);
     let b1 = t.rank(c, i);
     let d1 = t.select(c, i);
-    assert!(t == snap);
-    assert!(t.get(i) == a1 && t.rank(c, i) == b1 && t.select(c, i) == d1);
-    assert!(t == snap);
+    let e1 = t.rank_prefetch(c, i);
+    // the same queries again, interleaved differently: same answers, and the contents are untouched
+    assert!(t.select(c, i) == d1 && t.get(i) == a1 && t.rank_prefetch(c, i) == e1 && t.rank(c, i) == b1);
+    assert!(t.get(j) == Some(s[j]) && t.len() == 3 && t.sigma() == Some(255));
     kani::cover!(a1.is_some() && b1.is_some() && d1.is_some(), "queries that answer");
     core::mem::forget(t);
-    core::mem::forget(snap);
 }
